@@ -2,14 +2,17 @@
 // negotiation over HISTORIES of connections to one host (ops `negoh`, `negos`).
 //
 // rx:    one real connection over net.Pipe against a scripted peer: the two responses of the
-//        handshake and then frames on a stream with a waiting call, on stream -1 (EVENT), on the
-//        reserved streams 0 / -2 and on a stream nobody waits on — each with or without the compression
-//        flag, the payload plain / encoded by the configured codec / by the other one / corrupt /
-//        cut. Observed per frame: what the waiting call got, which event reached the session, whether
-//        the connection lives (a ping) or with which error it was closed.
+//
+//	handshake and then frames on a stream with a waiting call, on stream -1 (EVENT), on the
+//	reserved streams 0 / -2 and on a stream nobody waits on — each with or without the compression
+//	flag, the payload plain / encoded by the configured codec / by the other one / corrupt /
+//	cut. Observed per frame: what the waiting call got, which event reached the session, whether
+//	the connection lives (a ping) or with which error it was closed.
+//
 // negoh: several connections, one after the other or side by side, to ONE HostInfo; the node changes
-//        what it advertises between connections. Observed per connection, on the peer's side:
-//        OPTIONS sent?, the COMPRESSION value of STARTUP, the flag of a later request.
+//
+//	what it advertises between connections. Observed per connection, on the peer's side:
+//	OPTIONS sent?, the COMPRESSION value of STARTUP, the flag of a later request.
 //
 // A crash of the reader goroutine kills the process: these ops run in a WORKER child process (same
 // binary, `worker`); the parent answers `crash:child-died:…` and starts a new worker.
